@@ -341,6 +341,39 @@ def h_resubmit(ctx, field):
   ctx.check('no error reply', not any(isinstance(m, of.ofp_error) for m in sent))
 
 
+def h_exact_on_wire(ctx, kind):
+  """an entry whose match has no wildcard bit set **on the wire** (ofp_match.from_packet of the frame, packed into a flow_mod) is an exact-match
+  entry by the specification's definition, whatever the frame's protocol: it outranks a wildcarded entry of any priority that matches too"""
+  from props import env
+  env.get_core()
+  of = ctx.pox('pox.openflow.libopenflow_01'); ft = ctx.pox('pox.openflow.flow_table'); pkt = ctx.pox('pox.lib.packet')
+  from symx.core import SymBytes
+  mac = [2, 0, 0, 0, 0, 9, 2, 0, 0, 0, 0, 1]
+  a = list(ctx.bytes('a', 4)); b = list(ctx.bytes('b', 4)); w = ctx.int('w', 0, 0xffff)
+  if kind == 'arp':
+    frame = mac + [0x08, 0x06, 0, 1, 8, 0, 6, 4, 0, 1] + mac[6:] + a + [0] * 6 + b; dl_type = 0x0806
+  elif kind == 'other':
+    frame = mac + [0x88, 0xb5] + a + b; dl_type = 0x88b5
+  elif kind == 'ip_other':
+    frame = mac + [0x08, 0x00] + [0x45, 0, 0, 24, 0, 0, 0, 0, 64, 47, 0, 0] + a + b + [0, 0, 8, 0]; dl_type = 0x0800
+  else:
+    frame = mac + [0x08, 0x00] + [0x45, 0, 0, 28, 0, 0, 0, 0, 64, 17, 0, 0] + a + b + be(w, 2) + [0, 53, 0, 8, 0, 0]; dl_type = 0x0800
+  in_port = ctx.int('in_port', 1, 0xff00)
+  eth = pkt.ethernet(SymBytes(frame) if ctx.sym else bytes(frame))
+  m = of.ofp_match.from_packet(eth, in_port)
+  wire = of.ofp_flow_mod(match=m, priority=ctx.int('prio_exact', 0, 0xffff), actions=[of.ofp_action_output(port=2)]).pack()
+  ctx.check('the match is exact on the wire (wildcards word 0)', ctx.And(wire[8] == 0, wire[9] == 0, wire[10] == 0, wire[11] == 0))
+  _, fm = of.ofp_flow_mod.unpack_new(wire)
+  exact = ft.TableEntry.from_flow_mod(fm)
+  wild = ft.TableEntry(priority=ctx.int('prio_wild', 0, 0xffff), match=of.ofp_match(dl_type=dl_type), now=0)
+  t = ft.FlowTable()
+  for e in ((exact, wild) if bool(ctx.bool('exact_first')) else (wild, exact)): t.add_entry(e)
+  got = t.entry_for_packet(pkt.ethernet(SymBytes(frame) if ctx.sym else bytes(frame)), in_port)
+  ctx.check('both entries match the frame; the exact-match one is returned', got is exact)
+  if bool(exact.priority < wild.priority): ctx.witness('lower-number')
+  ctx.witness('done')
+
+
 def h_install_with_error(ctx, kind):
   """an entry installed by a flow_mod that also draws an error reply (it names a packet buffer the switch does not have): the error quotes
   the request, and the installed entry must keep matching exactly what it matched - the frames it describes still hit it"""
@@ -485,6 +518,8 @@ def obligations(tier):
                desc='a buffered frame sent back to the table after a header rewrite (packet_out: set field, output OFPP_TABLE) is looked up by its current headers'),
     Obligation('O6_lookup_twice', h_lookup_twice, [dict(nframes=2)] + ([dict(nframes=3)] if thorough else []), witnesses=('different-answers', 'miss-after-hit', 'same-entry'), max_decisions=20000,
                desc='consecutive lookups of different frames in an unchanged table: each answer is right on its own (a lookup keeps no state)'),
+    Obligation('O7_exact_on_wire', h_exact_on_wire, [dict(kind=k) for k in ('udp', 'arp', 'other', 'ip_other')], witnesses=('done', 'lower-number'),
+               desc='entries without any wildcard bit on the wire (ARP, non-IP, IP with another protocol) outrank every wildcarded entry'),
     Obligation('O3_lookup_frame', h_lookup_real, [dict(n=1)] + ([dict(n=2)] if thorough else []), witnesses=('hit',),
                desc='entry_for_packet on a TCP frame with symbolic addresses/ports: parse + from_packet + lookup'),
   ]
